@@ -89,7 +89,8 @@ class LoopCtx:
     def __getitem__(self, name):
         v = self.st.lookup(name)
         if v is None:
-            raise KeyError(name)
+            # the sidecar invariant names a local that the (edited) function no longer has: undecided, not an engine error
+            raise Unsupported(f"loop invariant refers to local `{name}` which does not exist (renamed?)")
         return v
 
     def old(self, name):
